@@ -350,8 +350,29 @@ def analyse_absent(repo: Repo, run: Run, interp) -> None:
                    line=p_.lineno)
 
 
+def lookups_by_name(repo: Repo, run: Run) -> None:
+    """Nested lookup records are recognised by the NAME the supplied table gives their id (C08/R1) - not by an id fixed in
+    the code or computed once from the table: with a table that lists a name under several ids (or under another id than
+    the bundled one) every such record must still be decoded."""
+    from . import c08
+    probe = Run("C08", run.tier, run.repo_root)
+    try:
+        c08.check(repo, probe)
+    except AnalysisError:
+        pass            # the floor below fails if the selection obligation was not reached
+    n = 0
+    for o in probe.obligations:
+        if o["rule"] == "R1" and "records named VFS_LOOKUP" in o["construct"]:
+            n += 1
+            run.ob("R0", o["module"], o["scope"], f"records found through the supplied table (C08/R1): {o['construct']}", o["ok"],
+                   (o.get("what", "") + " - a supplied table that gives the name to a different or a further id is not honoured")
+                   if not o["ok"] else "", nontrivial=False)
+    run.floor("R0", "name-based selection obligations taken over from C08", n, 1)
+
+
 def check(repo: Repo, run: Run) -> None:
     interp = sym.Interp(repo)
+    lookups_by_name(repo, run)
     analyse_table_parser(repo, run, interp)
     analyse_indirection(repo, run, interp)
     analyse_absent(repo, run, interp)
